@@ -38,6 +38,12 @@ CHECKS = {
         text="TLC proves ExactlyOnce and Ordered for record-then-publish (also with frames of a longer foreign stream on the shared channel) and exhibits the loss for publish-then-record; all interleavings of 3 frames x (record, publish) with subscribe/snapshot are forced on real session and task streams, and interleavings with a second, longer thread on real thread streams; a further scenario delays one task frame right after numbering while the other pump runs; the SSE body must contain every frame of the stream exactly once in seq order.",
         note="Gates at emit.recorded / emit.published / emit.numbered, cache.exit / api.return, sse.subscribed / sse.snapshotted; a schedule the code's locks forbid is unrealised (no verdict); missing = not delivered 3 s after the producer finished; lag beyond the 16 384-slot channel out of scope.",
         ref="4 C06"),
+    "C07": dict(
+        engine="RunLoop",
+        technique="TLA+ spec RunLoop (the agent loop folded over a provider script; exact thread frame sequence of a run) checked with TLC; one provider script per distinct predicted run played by a scripted provider against the real router; thread and session streams compared with the prediction",
+        text="TLC proves Ordered over all provider scripts of the alphabet and prints one script per distinct predicted run (text, tool calls, malformed JSON, schema-invalid events, HTTP 500, connection reset mid-body, end without [DONE], empty body x tool choices x history modes); the scripted provider plays each against the real router and the run's thread frames must be exactly the predicted sequence (selection, compilation, one side-effects frame per executed lock-path tool, cursor iff completed with a response id, run_ended last and once), the session stream must start with its start frame at seq 0, end with exactly one end frame and be gap-free, run_ended must follow the run's session_ended in file order; 13 further scenarios cover envelopes, no provider, dead endpoint, compile failure, parallel runs and failing / succeeding compaction jobs (job ended at most once).",
+        note="Provider behaviour alphabet = six response outcomes x 3-4 call items; byte-level variety belongs to C15.",
+        ref="4 C07"),
     "C09": dict(
         engine="Threads",
         technique="TLA+ spec Threads (cut points, planner, executor, scheduler as operators over the frame sequence) model-checked with TLC; every (state, compaction request) transition replayed on the real store and compared with the prediction; gate-scheduled concurrent calls",
@@ -74,6 +80,12 @@ CHECKS = {
         text="TLC proves ChunkInvariant for every symbol stream up to length 5 (7 symbols) and every byte-class stream up to length 6 under EVERY partition, and MatchesLossy for the byte stage; each stream is decoded by the real SseDecoder/EventFrameMapper under all token-boundary partitions, every single byte cut and one byte at a time, and must equal the whole-stream decode and the model's reference; byte-class and framing streams (CRLF, multi-line data, comments, event names, invalid JSON, [DONE], missing final blank line, multi-byte text) are sent through real session runs with every cut set and must give the same provider/text frames with contiguous seqs.",
         note="Value fidelity is represented by byte classes (ascii, 2/3/4-byte lead, continuation, never-valid); the TCP chunk boundaries are assumed to reach reqwest as written (verified on this image).",
         ref="4 C15"),
+    "C16": dict(
+        engine="RunLoop",
+        technique="TLA+ spec RunLoop (call collection, output-order drain, tool-choice enforcement, call budget, stateful / stateless follow-ups) model-checked with TLC (ExecutedOnce, BarredNeverRuns, Bounded, Ordered); one provider script per distinct predicted run replayed through the real router; request bodies, tool_started frames and tool side effects compared with Run(cfg, script)",
+        text="TLC proves ExecutedOnce, BarredNeverRuns, Bounded and Ordered for every script (2-3 responses x up to 2 call items incl. duplicate call ids via repeated done events, reversed output order, streamed arguments, an unknown tool; 6 response outcomes; 5 tool choices; both history modes) and prints one script per distinct predicted run; the real run must execute exactly the predicted calls in order (the append-only file written by the write tool counts executions), answer exactly the predicted call ids in the very next request, never execute a barred tool, stop at 32 calls, send previous_response_id / an extending input, and never send a request with validation errors.",
+        note="The scripted provider records the request bodies actually sent; call alphabet of 3-4 items.",
+        ref="4 C16"),
     "C20": dict(
         engine="Surface",
         technique="TLA+ spec Surface (UI state as a fold over arbitrary frame sequences: bounded window, lookup by seq, tool summaries, bounded output) checked with TLC; every generated sequence folded by the real TuiState/FrameStore and rendered on a TestBackend at all widths; observations compared with the model",
